@@ -275,7 +275,45 @@ def t_deparse(rng, n):
     return {"coq": text, "n": n, "descr": descr}
 
 
-TARGETS = {"exhaust": t_exhaust, "context": t_context, "names": t_names, "deparse": t_deparse}
+def t_variables(rng, n):
+    cases, descr = [], []
+    for i in range(n):
+        e = gen_ex_expr(rng, rng.choice([0, 1, 2, 3, 4, 5]))
+        v = e.variables()
+        exp = clist(f"({cstr(k)}, {clist(ex_term(t) for t in ts)})" for k, ts in v.items())
+        cases.append(f"vars_ok (Expression_variables {ex_term(e)}) {exp}")
+        descr.append(f"variables: {e.deparse()}")
+    text = HEAD + "From TV Require Import gen.Deparse.\n"
+    text += ("Definition vars_ok (o : option (list (string * list ex_expr))) (b : list (string * list ex_expr)) : bool :=\n"
+             "  match o with\n  | Some a => list_eqb (fun x y => String.eqb (fst x) (fst y) && list_eqb ex_expr_eqb (snd x) (snd y)) a b\n"
+             "  | None => false\n  end.\n")
+    text += "Definition results : list bool :=\n " + clist(cases) + ".\n"
+    text += "Eval vm_compute in (failing results).\n"
+    return {"coq": text, "n": n, "descr": descr}
+
+
+def t_index_participants(rng, n):
+    cases, descr = [], []
+    for i in range(n):
+        e = gen_ex_expr(rng, rng.choice([0, 1, 2, 3, 4, 5]))
+        ip = e.index_participants()
+        exp = clist(f"({cstr(k)}, {clist(f'({cstr(t)}, {cz(j)})' for t, j in sorted(ps))})" for k, ps in sorted(ip.items()))
+        cases.append(f"ip_ok (Expression_index_participants (fun l => l) {ex_term(e)}) {exp}")
+        descr.append(f"index_participants: {e.deparse()}")
+    text = HEAD + "From TV Require Import gen.Deparse.\n"
+    text += ("Definition peqb := pair_eqb String.eqb Z.eqb.\n"
+             "Definition psub (a b : list (string * Z)) : bool := forallb (fun x => existsb (peqb x) b) a.\n"
+             "Definition entry_in (d : list (string * list (string * Z))) (kv : string * list (string * Z)) : bool :=\n"
+             "  match dict_get String.eqb (fst kv) d with Some ps => psub ps (snd kv) && psub (snd kv) ps | None => false end.\n"
+             "(* the same dict: same keys, no repeated key, the same set under every key *)\n"
+             "Definition ip_ok (a b : list (string * list (string * Z))) : bool :=\n"
+             "  Nat.eqb (List.length a) (List.length b) && forallb (entry_in a) b && forallb (entry_in b) a.\n")
+    text += "Definition results : list bool :=\n " + clist(cases) + ".\n"
+    text += "Eval vm_compute in (failing results).\n"
+    return {"coq": text, "n": n, "descr": descr}
+
+
+TARGETS = {"index_participants": t_index_participants, "variables": t_variables, "exhaust": t_exhaust, "context": t_context, "names": t_names, "deparse": t_deparse}
 
 def main():
     try:  # further targets (desugar) live in a separate module
